@@ -180,6 +180,17 @@ class FuseConvPad(_FuseConvPadBase):
 class FuseConvIntegerPad(FuseConvPad):
     """Replaces ``ConvInteger(Pad(x))`` with ``ConvInteger(x)``."""
 
+    def check(self, context, x: ir.Value, pad: ir.Value, conv: ir.Value) -> orp.MatchResult:
+        check_result = super().check(context, x, pad, conv)
+        if not check_result:
+            return check_result
+        # ConvInteger pads with x_zero_point, Pad pads with 0: only the same when the zero point is 0
+        conv_node = conv.producer()
+        if len(conv_node.inputs) > 2 and (zp := conv_node.inputs[2]) is not None:
+            if zp.const_value is None or zp.is_graph_input() or np.any(zp.const_value.numpy() != 0):
+                return check_result.fail("x_zero_point must be a constant 0.")
+        return check_result
+
     def pattern(self, op, x):
         return op.ConvInteger(
             op.Pad(x, _allow_other_inputs=True, _outputs=["pad"]),
